@@ -157,9 +157,9 @@ Proof.
   - intros r. now rewrite Hit. - intros E. now rewrite Hit.
 Qed.
 
-Lemma Lin_streamnext s o : Lin s -> is_running s = true -> fix7 (fx s) = true -> Lin (step s (StreamNext o)).
+Lemma Lin_streamnext s o : Lin s -> is_running s = true -> fix7 (fx s) = true -> fix25 (fx s) = true -> Lin (step s (StreamNext o)).
 Proof.
-  intros L Hr H7. unfold step. destruct (getop s o) as [c|] eqn:Hc; [|exact L]. destruct (o_status c) eqn:Hst; try exact L.
+  intros L Hr H7 H25. unfold step, scrub_id. rewrite H25. destruct (getop s o) as [c|] eqn:Hc; [|exact L]. destruct (o_status c) eqn:Hst; try exact L.
   destruct (l_stat s L o c Hc) as (S1 & _ & _ & S4). assert (IS : is_search c) by (apply S4; unfold stream_status; now rewrite Hst).
   rewrite (S1 Hst). cbn [negb].
   assert (Nq : ~ In o (opq s)). { intros Hin. destruct (l_q s L o Hin) as (c' & Hc' & _ & _ & _ & _ & Q & _). rewrite Hc in Hc'. injection Hc' as <-. unfold qstat in Q. now rewrite Hst in Q. }
@@ -204,9 +204,9 @@ Proof.
       | (intros _; now left) | (cbn; discriminate) | (cbn; discriminate) | (cbn; discriminate) | (intros _; exact IS) | (rewrite Hst; discriminate) ].
 Qed.
 
-Lemma Lin_streamfinish s o : Lin s -> Chan s -> is_running s = true -> Lin (step s (StreamFinish o)).
+Lemma Lin_streamfinish s o : Lin s -> Chan s -> is_running s = true -> fix25 (fx s) = true -> Lin (step s (StreamFinish o)).
 Proof.
-  intros L CH Hr. unfold step. destruct (getop s o) as [c|] eqn:Hc; [|exact L].
+  intros L CH Hr H25. unfold step, scrub_id. rewrite H25. destruct (getop s o) as [c|] eqn:Hc; [|exact L].
   destruct (l_stat s L o c Hc) as (_ & _ & S3 & S4).
   assert (Nq : (o_status c = SActive \/ o_status c = SDone \/ o_status c = SError) -> stream_status c -> ~ In o (opq s)).
   { intros E SS Hin. destruct (l_q s L o Hin) as (c' & Hc' & _ & _ & _ & _ & Q & _). rewrite Hc in Hc'. injection Hc' as <-. unfold qstat in Q.
@@ -791,7 +791,8 @@ Proof.
   - apply (Lin_same s); try reflexivity. exact L.
   - now apply Lin_clipoll.
   - apply Lin_streamnext; try assumption; now rewrite F.
-  - now apply Lin_streamfinish.
+  - apply Lin_streamfinish; try assumption; now rewrite F.
+  - apply (Lin_same s); try reflexivity. exact L.
   - apply (Lin_same s); try reflexivity. exact L.
   - now apply Lin_alloc.
   - now apply Lin_enqueue.
@@ -842,9 +843,9 @@ Proof.
   - chan_k K Hc. cbn; destruct (o_kind c); discriminate.
 Qed.
 
-Lemma Chan_streamnext s o : Lin s -> Chan s -> is_running s = true -> Chan (step s (StreamNext o)).
+Lemma Chan_streamnext s o : Lin s -> Chan s -> is_running s = true -> fix25 (fx s) = true -> Chan (step s (StreamNext o)).
 Proof.
-  intros L CH Hr. unfold step. destruct (getop s o) as [c|] eqn:Hc; [|exact CH]. destruct (o_status c) eqn:Hst; try exact CH.
+  intros L CH Hr H25. unfold step, scrub_id. rewrite H25. destruct (getop s o) as [c|] eqn:Hc; [|exact CH]. destruct (o_status c) eqn:Hst; try exact CH.
   destruct (CH) as [C1 C2].
   assert (Nq : ~ In o (opq s)). { intros Hin. destruct (l_q s L o Hin) as (c' & Hc' & _ & _ & _ & _ & Q & _). rewrite Hc in Hc'. injection Hc' as <-. unfold qstat in Q. now rewrite Hst in Q. }
   assert (K : forall (s' : st) g, (forall o', getop s' o' = if Nat.eqb o' o then Some (g c) else getop s o') -> smap s' = smap s -> opq s' = opq s ->
@@ -870,9 +871,9 @@ Proof.
     + chan_k K Hc. 
 Qed.
 
-Lemma Chan_streamfinish s o : Lin s -> Chan s -> Chan (step s (StreamFinish o)).
+Lemma Chan_streamfinish s o : Lin s -> Chan s -> fix25 (fx s) = true -> Chan (step s (StreamFinish o)).
 Proof.
-  intros L CH. unfold step. destruct (getop s o) as [c|] eqn:Hc; [|exact CH].
+  intros L CH H25. unfold step, scrub_id. rewrite H25. destruct (getop s o) as [c|] eqn:Hc; [|exact CH].
   destruct (CH) as [C1 C2].
   assert (K : forall (s' : st) g, (forall o', getop s' o' = if Nat.eqb o' o then Some (g c) else getop s o') -> smap s' = smap s -> opq s' = opq s ->
      (forall x, In x (scrubq s) -> In x (scrubq s')) -> o_chan (g c) = o_chan c -> o_kind (g c) = o_kind c -> o_status (g c) <> SError -> Chan s').
@@ -1120,8 +1121,9 @@ Proof.
   - unfold step. rewrite Hr. apply Chan_end.
   - apply (Chan_same s); try reflexivity. exact CH.
   - now apply Chan_clipoll.
-  - now apply Chan_streamnext.
-  - now apply Chan_streamfinish.
+  - apply Chan_streamnext; try assumption; now rewrite F.
+  - apply Chan_streamfinish; try assumption; now rewrite F.
+  - apply (Chan_same s); try reflexivity. exact CH.
   - apply (Chan_same s); try reflexivity. exact CH.
   - now apply Chan_alloc.
   - now apply Chan_enqueue.
